@@ -9,8 +9,6 @@ package manager
 // decides when each parked job is delivered.
 
 import (
-	"syscall"
-	"strconv"
 	"bytes"
 	"context"
 	"fmt"
@@ -19,8 +17,10 @@ import (
 	"os"
 	"path/filepath"
 	"sort"
+	"strconv"
 	"strings"
 	"sync"
+	"syscall"
 	"time"
 
 	"github.com/gopacket/gopacket"
@@ -211,7 +211,7 @@ func (e *veEngine) inLoop(f func()) error {
 
 type veFlags struct {
 	imp, tag, merge, conv bool
-	importQueue          int
+	importQueue           int
 }
 
 func (e *veEngine) flags() (veFlags, error) {
